@@ -111,3 +111,53 @@ package lite
 //@   ensures [nothing-left-ends-the-attempt] old(len(tryBackends)) == 0 ==> !result.2
 //@   ensures [every-pick-shortens-the-list] result.2 ==> len(tryBackends) == old(len(tryBackends)) - 1
 //@   ensures [the-pick-is-handed-out] result.2 ==> called(pick) && res(pick, 2) && streq(result.0, res(pick, 0))
+
+// ---- C29: the first matching route, wildcard captures into the backend addresses ------------------------------------
+// Route search: routes in configuration order, each route's host patterns in order; the first pattern that matches
+// ends the search with that route, that pattern and the groups the match captured; no match returns no route.
+//@ func FindRouteWithGroups
+//@   props C29
+//@   loop 1: invariant rangeindex >= -1 && rangeindex < len(routes)
+//@   at-call matchWithGroups as m: assert [host-against-each-pattern-in-order] streq(arg0, pattern) && streq(arg1, host)
+//@   ensures [first-match-wins] route != nil ==> called(m) && res(m, 0) && streq(host, arg(m, 1)) && ref(groups) == ref(res(m, 1)) && len(groups) == len(res(m, 1))
+
+// Matching is case-insensitive on both sides and anchored; a pattern that does not compile matches nothing.
+//@ func matchWithGroups
+//@   props C29
+//@   at-call getRegexp as re: assert streq(arg0, pattern)
+//@   at-call ToLower as low: assert streq(arg0, s)
+//@   at-call FindStringSubmatch as fs: assert arg0 == res(re) && res(re) != nil && streq(arg1, res(low))
+//@   ensures [no-regexp-no-match] called(re) && res(re) == nil ==> !result.0
+//@   ensures [groups-are-the-submatches] result.0 ==> called(fs) && len(res(fs)) >= 1 && (len(res(fs)) > 1 ==> len(result.1) == len(res(fs)) - 1 && ref(result.1) == ref(res(fs)))
+//@ func getRegexp
+//@   props C29
+//@   at-call ToLower as low: assert streq(arg0, pattern)
+//@   at-call Get as look: assert arg0 == compiledRegexCache && streq(arg1, res(low))
+// Glob to regular expression: quote everything, then '?' becomes one captured character and '*' a captured lazy run;
+// anchored at both ends, with (?s) so that "any character" includes newline.
+//@ func init$1
+//@   props C29
+//@   at-call QuoteMeta as q: assert streq(arg0, pattern)
+//@   at-call ReplaceAll#1 as one: assert [question-mark-is-one-character] streq(arg0, res(q)) && streq(arg1, "\\?") && streq(arg2, "(.)")
+//@   at-call ReplaceAll#2 as many: assert [star-is-any-sequence-anchored-dot-matches-all] streq(arg1, "\\*") && streq(arg2, "(.*?)")
+//@   at-call Compile as cmp: assert called(one) && called(many) && streq(arg0, res(many))
+//@   at-call Set as put: assert [cached-under-the-unmodified-pattern] streq(arg1, pattern) && arg2 == res(cmp, 0)
+
+// Substitution: from the highest parameter index down (so that $1 cannot eat the front of $10), each $i by group i.
+//@ func substituteBackendParams
+//@   props C29
+//@   loop 1: invariant i >= 0 && i <= len(groups)
+//@   loop 1: decreases i
+//@   at-call Sprintf as name
+//@   at-call ReplaceAll as rep: assert [parameter-i-by-group-i] called(name) && streq(arg1, res(name)) && i >= 1 && i <= len(groups) && streq(arg2, groups[i-1])
+//@   ensures [no-groups-no-change] len(groups) == 0 ==> streq(result, template) && !called(rep)
+
+// findRoute: the host is cleaned first, routes are searched with the cleaned host, an unmatched host yields an error
+// and no backend iterator (Forward returns before any dial), captures go into every backend of the matched route.
+//@ func findRoute
+//@   props C29
+//@   loop 1: invariant rangeindex >= -1 && rangeindex < len(tryBackends)
+//@   at-call ClearVirtualHost as clean: assert streq(arg0, handshake.ServerAddress)
+//@   at-call FindRouteWithGroups as find: assert [search-with-the-cleaned-host] called(clean) && streq(arg0, res(clean)) && ref(arg1) == ref(routes) && len(arg1) == len(routes)
+//@   at-call substituteBackendParams as sub: assert [captures-go-into-the-backends] called(find) && res(find, 1) != nil && ref(arg1) == ref(res(find, 2)) && len(arg1) == len(res(find, 2))
+//@   ensures [unmatched-host-dials-nothing] called(find) && res(find, 1) == nil ==> err != nil && nextBackend == nil && route == nil
